@@ -10,6 +10,7 @@ def stepStream : MStep → Stream
   | .parts s => s
   | .ungrouped s => s
   | .grouped s => s
+  | .profile s => s
 
 /-- paths a merge step of stream `s` may touch -/
 def Tstep (s : Stream) : Path → Bool
@@ -19,6 +20,7 @@ def Tstep (s : Stream) : Path → Bool
   | .final s' => s' == s
   | .finalLin s' => s' == s
   | .tpm s' => s' == s
+  | .finalGz s' => s' == s
   | _ => false
 
 /-- the per-chromosome files a merge step consumes -/
@@ -26,12 +28,14 @@ def stepFiles (c : Chr) : MStep → List Path
   | .parts s => [.part s c]
   | .ungrouped s => [.part s c, .partStats s c]
   | .grouped s => [.part s c, .partLin s c]
+  | .profile s => [.part s c]
 
 /-- the final files a merge step completes -/
 def stepFinals : MStep → List Path
   | .parts _ => []
   | .ungrouped s => [.final s, .tpm s]
   | .grouped s => [.final s, .finalLin s, .tpm s]
+  | .profile s => [.final s]
 
 /-- what a merge event may be: the removal of a per-chromosome file of a configured chromosome, or an event on a final file -/
 def MergeEv (cfg : Cfg) (e : Ev) : Prop :=
@@ -82,7 +86,10 @@ theorem step_events (cfg : Cfg) (unal : Bool) (fs0 : FS) (st : MStep) :
           ++ .append (.finalLin s) :: cfg.mchrs.map (fun c => Ev.remove (.partLin s c))
           ++ [.commit (.final s) (tokOf (allGood fs0 (cfg.mchrs.map (Path.part s)))),
               .commit (.finalLin s) (tokOf (allGood fs0 (cfg.mchrs.map (Path.partLin s)))), .create (.tpm s),
-              .commit (.tpm s) (tokOf (allGood fs0 (cfg.mchrs.map (Path.part s))))] := by
+              .commit (.tpm s) (tokOf (allGood fs0 (cfg.mchrs.map (Path.part s))))]
+      | .profile s =>
+          .append (.final s) :: cfg.mchrs.map (fun c => Ev.remove (.part s c))
+          ++ [.commit (.final s) (tokOf (allGood fs0 (cfg.mchrs.map (Path.part s))))] := by
   cases st with
   | parts s => simp [stepActs, rmParts, eventsOf_rmAll, List.map_map, Function.comp_def]
   | ungrouped s =>
@@ -90,6 +97,9 @@ theorem step_events (cfg : Cfg) (unal : Bool) (fs0 : FS) (st : MStep) :
       List.map_map, Function.comp_def]
   | grouped s =>
     simp [stepActs, mergeGrouped, rmParts, eventsOf_cons_ev, eventsOf_append, eventsOf_rmAll, List.map_map,
+      Function.comp_def]
+  | profile s =>
+    simp [stepActs, mergeProfile, rmParts, eventsOf_cons_ev, eventsOf_append, eventsOf_rmAll, List.map_map,
       Function.comp_def]
 
 theorem step_T (cfg : Cfg) (unal : Bool) (fs0 : FS) (st : MStep) :
@@ -124,6 +134,12 @@ theorem step_mergeEv {cfg : Cfg} (wf : WF cfg) (unal : Bool) (fs0 : FS) (st : MS
     · exact Or.inr rfl
     · exact Or.inr rfl
     · exact Or.inr rfl
+    · exact Or.inr rfl
+  | profile s =>
+    simp only [List.cons_append, List.mem_cons, List.mem_append, List.mem_map, List.not_mem_nil, or_false] at he
+    rcases he with rfl | ⟨c, hc, rfl⟩ | rfl
+    · exact Or.inr rfl
+    · exact Or.inl ⟨s, c, (wf.m_iff c).mp hc, Or.inl rfl⟩
     · exact Or.inr rfl
 
 /-- a merge step completes when the files it consumes exist -/
@@ -162,6 +178,11 @@ theorem step_checks {cfg : Cfg} (wf : WF cfg) (unal : Bool) (fs0 : FS) {fs : FS}
         simp [eventsOf_cons_ev, rmParts, eventsOf_rmAll, List.all_map, Function.comp_def, Ev.path, notLin]
       simp only [FS.has, apply]; rw [set_other _ _ (by simp [Ev.path]), frame notLin hT rfl]
       exact hf c ((wf.m_iff c).mp hc) _ (by simp [stepFiles])
+  | profile s =>
+    simp only [stepActs, mergeProfile]
+    refine (checks_append.mpr ⟨?_, checks_evs _ _⟩ : ChecksOK ((Act.ev (.append (.final s)) :: rmParts cfg (Path.part s)) ++ _) fs)
+    show ChecksOK (rmParts cfg (Path.part s)) (apply fs (.append (.final s)))
+    exact hpart s (fun c hc => hf c hc _ (by simp [stepFiles])) _ (fun c => set_other _ _ (by simp [Ev.path]))
 
 
 theorem eventsOf_flatMap {α : Type} (l : List α) (f : α → List Act) :
@@ -174,13 +195,17 @@ theorem Tstep_disjoint {s s' : Stream} {p : Path} (h : Tstep s p = true) (h' : T
   cases p <;> simp_all [Tstep]
 
 theorem stepFiles_T {c : Chr} {st : MStep} {d : Path} (h : d ∈ stepFiles c st) : Tstep (stepStream st) d = true := by
-  cases st <;> simp only [stepFiles, List.mem_cons, List.not_mem_nil, or_false] at h <;>
-    rcases h with rfl | rfl <;> simp [Tstep, stepStream]
+  cases st <;> simp only [stepFiles, List.mem_cons, List.not_mem_nil, or_false] at h
+  · subst h; simp [Tstep, stepStream]
+  · rcases h with rfl | rfl <;> simp [Tstep, stepStream]
+  · rcases h with rfl | rfl <;> simp [Tstep, stepStream]
+  · subst h; simp [Tstep, stepStream]
 
 theorem stepFinals_T {st : MStep} {d : Path} (h : d ∈ stepFinals st) : Tstep (stepStream st) d = true := by
   cases st <;> simp only [stepFinals, List.mem_cons, List.not_mem_nil, or_false] at h
   · rcases h with rfl | rfl <;> simp [Tstep, stepStream]
   · rcases h with rfl | rfl | rfl <;> simp [Tstep, stepStream]
+  · subst h; simp [Tstep, stepStream]
 
 /-- events of steps of other streams leave the paths of stream `s` alone -/
 theorem steps_frame (cfg : Cfg) (unal : Bool) (fs0 : FS) (steps : List MStep) (s : Stream)
@@ -224,6 +249,7 @@ def stepTokOK (cfg : Cfg) (unal : Bool) (fs0 : FS) : MStep → Prop
   | .ungrouped s => (allGood fs0 (cfg.mchrs.map (Path.part s)) && allGood fs0 (cfg.chrs.map (Path.partStats s))
                       && (unal || !cfg.unmapped)) = true
   | .grouped s => allGood fs0 (cfg.mchrs.map (Path.part s)) = true ∧ allGood fs0 (cfg.mchrs.map (Path.partLin s)) = true
+  | .profile s => allGood fs0 (cfg.mchrs.map (Path.part s)) = true
 
 theorem step_finals (cfg : Cfg) (unal : Bool) (fs0 fs : FS) (st : MStep) (htok : stepTokOK cfg unal fs0 st) :
     ∀ p ∈ stepFinals st, (applyAll fs (eventsOf (stepActs cfg unal fs0 st))).good p = true := by
@@ -241,6 +267,11 @@ theorem step_finals (cfg : Cfg) (unal : Bool) (fs0 fs : FS) (st : MStep) (htok :
     simp only [stepFinals, List.mem_cons, List.not_mem_nil, or_false] at hp
     simp only [htok.1, htok.2, tokOf, if_true, applyAll_append, FS.good]
     rcases hp with rfl | rfl | rfl <;> simp [applyAll, apply, FS.set, Ev.path, Ev.val]
+  | profile s =>
+    simp only [stepTokOK] at htok
+    simp only [stepFinals, List.mem_cons, List.not_mem_nil, or_false] at hp
+    simp only [htok, tokOf, if_true, applyAll_append, FS.good]
+    subst hp; simp [applyAll, apply, FS.set, Ev.path, Ev.val]
 
 theorem steps_finals (cfg : Cfg) (unal : Bool) (fs0 : FS) (steps : List MStep) (hnd : (steps.map stepStream).Nodup)
     (htok : ∀ st ∈ steps, stepTokOK cfg unal fs0 st) (fs : FS) :
@@ -268,6 +299,7 @@ def Tmerge : Path → Bool
   | .final _ => true
   | .finalLin _ => true
   | .tpm _ => true
+  | .finalGz _ => true
   | _ => false
 
 theorem mergeEv_T {cfg : Cfg} {e : Ev} (h : MergeEv cfg e) : Tmerge e.path = true := by
@@ -278,33 +310,76 @@ theorem mergeEv_T {cfg : Cfg} {e : Ev} (h : MergeEv cfg e) : Tmerge e.path = tru
   · revert h; cases e.path <;> simp [Tfin, Tmerge]
 
 theorem mergeSteps_nodup (cfg : Cfg) : ((mergeSteps cfg).map stepStream).Nodup := by
-  rcases cfg with ⟨chrs, mchrs, bchrs, genedb, rg, keepTmp, unmapped⟩
-  cases genedb <;> cases rg <;> simp [mergeSteps, modelGrouped, ungroupedGlobal, groupedGlobal, stepStream]
+  rcases cfg with ⟨chrs, mchrs, bchrs, genedb, rg, keepTmp, unmapped, fromSaves, sqanti, carried, countExons, noModel, gz, hm⟩
+  cases genedb <;> cases rg <;> cases countExons <;> cases noModel <;>
+    simp [mergeSteps, modelGrouped, ungroupedGlobal, groupedGlobal, profileGlobal, profileGrouped, stepStream]
 
 /-- no merge step works on the SQANTI-like table (it is merged by `sqMerge`) -/
 theorem mergeSteps_not_sq (cfg : Cfg) : ∀ st ∈ mergeSteps cfg, stepStream st ≠ .sq := by
-  rcases cfg with ⟨chrs, mchrs, bchrs, genedb, rg, keepTmp, unmapped⟩
-  cases genedb <;> cases rg <;> simp [mergeSteps, modelGrouped, ungroupedGlobal, groupedGlobal, stepStream]
+  rcases cfg with ⟨chrs, mchrs, bchrs, genedb, rg, keepTmp, unmapped, fromSaves, sqanti, carried, countExons, noModel, gz, hm⟩
+  cases genedb <;> cases rg <;> cases countExons <;> cases noModel <;>
+    simp [mergeSteps, modelGrouped, ungroupedGlobal, groupedGlobal, profileGlobal, profileGrouped, stepStream]
 
 theorem mergeSteps_files (cfg : Cfg) (c : Chr) : ∀ st ∈ mergeSteps cfg, ∀ d ∈ stepFiles c st, d ∈ chrOutputs cfg c := by
-  rcases cfg with ⟨chrs, mchrs, bchrs, genedb, rg, keepTmp, unmapped, fromSaves, sqanti, carried⟩
-  cases genedb <;> cases rg <;> cases sqanti <;>
-    simp [mergeSteps, modelGrouped, ungroupedGlobal, groupedGlobal, stepFiles, chrOutputs, printerStreams, aggPrinters,
-      gffStreams, sqStreams, ungrouped, grouped]
+  rcases cfg with ⟨chrs, mchrs, bchrs, genedb, rg, keepTmp, unmapped, fromSaves, sqanti, carried, countExons, noModel, gz, hm⟩
+  cases genedb <;> cases rg <;> cases sqanti <;> cases countExons <;> cases noModel <;>
+    simp [mergeSteps, modelGrouped, modelUngrouped, ungroupedGlobal, groupedGlobal, profile, profileGlobal, profileGrouped,
+      stepFiles, chrOutputs, printerStreams, aggPrinters, gffStreams, sqStreams, sqOn, ungrouped, grouped]
 
 theorem printer_parts (cfg : Cfg) (c : Chr) : ∀ s ∈ printerStreams cfg, Path.part s c ∈ chrOutputs cfg c := by
   intro s hs; simp only [chrOutputs, List.mem_append, List.mem_map]
-  exact Or.inl (Or.inl (Or.inl ⟨s, hs, rfl⟩))
+  exact Or.inl (Or.inl (Or.inl (Or.inl ⟨s, hs, rfl⟩)))
+
+/-- the streams written by printers (kept open; the others are counters, written by `dump`) -/
+def isPrinter : Stream → Bool
+  | .bed | .assign | .gtf | .r2t | .ext | .sq => true
+  | _ => false
+
+theorem printerStreams_isPrinter (cfg : Cfg) : ∀ s ∈ printerStreams cfg, isPrinter s = true := by
+  rcases cfg with ⟨chrs, mchrs, bchrs, genedb, rg, keepTmp, unmapped, fromSaves, sqanti, carried, countExons, noModel, gz, hm⟩
+  cases genedb <;> cases sqanti <;> cases noModel <;>
+    simp [printerStreams, aggPrinters, gffStreams, sqStreams, sqOn, isPrinter]
+
+theorem counters_not_printer (cfg : Cfg) : ∀ s ∈ ungrouped cfg ++ grouped cfg ++ profile cfg, isPrinter s = false := by
+  rcases cfg with ⟨chrs, mchrs, bchrs, genedb, rg, keepTmp, unmapped, fromSaves, sqanti, carried, countExons, noModel, gz, hm⟩
+  cases genedb <;> cases rg <;> cases countExons <;> cases noModel <;>
+    simp [modelGrouped, modelUngrouped, ungroupedGlobal, groupedGlobal, profile, profileGlobal, profileGrouped, ungrouped,
+      grouped, isPrinter]
+
+/-- every final file of a counter is completed by a merge step -/
+theorem counter_finals_steps (cfg : Cfg) :
+    ∀ p ∈ (ungrouped cfg).flatMap (fun s => [Path.final s, Path.tpm s])
+          ++ (grouped cfg).flatMap (fun s => [Path.final s, Path.finalLin s, Path.tpm s])
+          ++ (profile cfg).map Path.final, ∃ st ∈ mergeSteps cfg, p ∈ stepFinals st := by
+  rcases cfg with ⟨chrs, mchrs, bchrs, genedb, rg, keepTmp, unmapped, fromSaves, sqanti, carried, countExons, noModel, gz, hm⟩
+  cases genedb <;> cases rg <;> cases countExons <;> cases noModel <;>
+    simp [mergeSteps, modelGrouped, modelUngrouped, ungroupedGlobal, groupedGlobal, profile, profileGlobal, profileGrouped,
+      stepFinals, ungrouped, grouped]
 
 /-- every final file is closed by the last segment (printers) or completed by a merge step of a stream that is not a printer -/
 theorem finalPaths_cases (cfg : Cfg) : ∀ p ∈ finalPaths cfg,
-    (∃ s ∈ printerStreams cfg, p = .final s) ∨
-      ((∃ st ∈ mergeSteps cfg, p ∈ stepFinals st) ∧ ∀ s ∈ printerStreams cfg, p ≠ .final s) := by
-  rcases cfg with ⟨chrs, mchrs, bchrs, genedb, rg, keepTmp, unmapped, fromSaves, sqanti, carried⟩
-  cases genedb <;> cases rg <;> cases sqanti <;>
-    simp [finalPaths, mergeSteps, modelGrouped, ungroupedGlobal, groupedGlobal, stepFinals, printerStreams, aggPrinters,
-      gffStreams, sqStreams, ungrouped, grouped]
-
+    (∃ s ∈ printerStreams cfg, p = finalOf cfg s) ∨
+      ((∃ st ∈ mergeSteps cfg, p ∈ stepFinals st) ∧ ∀ s ∈ printerStreams cfg, p ≠ finalOf cfg s) := by
+  intro p hp
+  simp only [finalPaths, List.append_assoc] at hp
+  rcases List.mem_append.mp hp with hp | hp
+  · simp only [List.mem_map] at hp; obtain ⟨s, hs, rfl⟩ := hp; exact Or.inl ⟨s, hs, rfl⟩
+  · refine Or.inr ⟨counter_finals_steps cfg p (by simpa only [List.append_assoc] using hp), ?_⟩
+    intro s hs e
+    have hpr := printerStreams_isPrinter cfg s hs
+    have hnp := counters_not_printer cfg
+    simp only [List.mem_append, List.mem_flatMap, List.mem_map, List.mem_cons, List.not_mem_nil, or_false] at hp hnp
+    have key : ∀ s', (p = .final s' ∨ p = .finalLin s' ∨ p = .tpm s') → isPrinter s' = false → False := by
+      intro s' h1 h2
+      rcases finalOf_cases cfg s with e' | e' <;> rw [e'] at e <;> subst e <;>
+        rcases h1 with h1 | h1 | h1 <;> first | (injection h1 with h1; subst h1; simp [hpr] at h2) | cases h1
+    rcases hp with ⟨s', h1, h2 | h2⟩ | ⟨s', h1, h2 | h2 | h2⟩ | ⟨s', h1, h2⟩
+    · exact key s' (Or.inl h2) (hnp s' (Or.inl (Or.inl h1)))
+    · exact key s' (Or.inr (Or.inr h2)) (hnp s' (Or.inl (Or.inl h1)))
+    · exact key s' (Or.inl h2) (hnp s' (Or.inl (Or.inr h1)))
+    · exact key s' (Or.inr (Or.inl h2)) (hnp s' (Or.inl (Or.inr h1)))
+    · exact key s' (Or.inr (Or.inr h2)) (hnp s' (Or.inl (Or.inr h1)))
+    · exact key s' (Or.inl h2.symm) (hnp s' (Or.inr h1))
 
 theorem sqMerge_events (cfg : Cfg) :
     eventsOf (sqMerge cfg) = (sqStreams cfg).flatMap (fun s => Ev.create (.final s) :: cfg.mchrs.map (fun c => Ev.remove (.part s c))) := by
@@ -320,7 +395,7 @@ theorem sqMerge_mergeEv {cfg : Cfg} (wf : WF cfg) : ∀ e ∈ eventsOf (sqMerge 
   · exact Or.inl ⟨s, c, (wf.m_iff c).mp hc, Or.inl rfl⟩
 
 theorem sqMerge_checks {cfg : Cfg} (wf : WF cfg) {fs : FS}
-    (h : cfg.sqanti = true → ∀ c ∈ cfg.chrs, fs.has (.part .sq c) = true) : ChecksOK (sqMerge cfg) fs := by
+    (h : sqOn cfg = true → ∀ c ∈ cfg.chrs, fs.has (.part .sq c) = true) : ChecksOK (sqMerge cfg) fs := by
   simp only [sqMerge, sqStreams]
   split
   · rename_i hq
@@ -332,7 +407,7 @@ theorem sqMerge_checks {cfg : Cfg} (wf : WF cfg) {fs : FS}
     exact h hq c ((wf.m_iff c).mp hc)
   · trivial
 
-theorem sq_part_mem (cfg : Cfg) (hq : cfg.sqanti = true) (c : Chr) : Path.part .sq c ∈ chrOutputs cfg c := by
+theorem sq_part_mem (cfg : Cfg) (hq : sqOn cfg = true) (c : Chr) : Path.part .sq c ∈ chrOutputs cfg c := by
   apply printer_parts
   simp [printerStreams, sqStreams, hq]
 
@@ -348,14 +423,14 @@ theorem merge_stage {cfg : Cfg} (wf : WF cfg) {fs : FS} (h : J cfg fs)
     intro f hf l hl
     simp only [allGood, List.all_map, List.all_eq_true, Function.comp]
     intro c hc; exact hout c (hl c hc) _ (hf c)
-  have hseg : (printerStreams cfg).map (fun s => Ev.commit (.final s) (tokOf (allGood fs (cfg.mchrs.map (Path.part s)))))
-      = (printerStreams cfg).map (fun s => Ev.commit (.final s) .good) := by
+  have hseg : (printerStreams cfg).map (fun s => Ev.commit (finalOf cfg s) (tokOf (allGood fs (cfg.mchrs.map (Path.part s)))))
+      = (printerStreams cfg).map (fun s => Ev.commit (finalOf cfg s) .good) := by
     apply List.map_congr_left
     intro s hs
     rw [hall (Path.part s) (fun c => printer_parts cfg c s hs) cfg.mchrs (fun c hc => (wf.m_iff c).mp hc)]
     rfl
   rw [hseg]
-  generalize hS : (printerStreams cfg).map (fun s => Ev.commit (.final s) .good) = S
+  generalize hS : (printerStreams cfg).map (fun s => Ev.commit (finalOf cfg s) .good) = S
   have htok : ∀ st ∈ mergeSteps cfg, stepTokOK cfg true fs st := by
     intro st hst
     have hfiles := fun c => mergeSteps_files cfg c st hst
@@ -369,6 +444,8 @@ theorem merge_stage {cfg : Cfg} (wf : WF cfg) {fs : FS} (h : J cfg fs)
     | grouped s =>
       exact ⟨hall (Path.part s) (fun c => hfiles c _ (by simp [stepFiles])) cfg.mchrs (fun c hc => (wf.m_iff c).mp hc),
              hall (Path.partLin s) (fun c => hfiles c _ (by simp [stepFiles])) cfg.mchrs (fun c hc => (wf.m_iff c).mp hc)⟩
+    | profile s =>
+      exact hall (Path.part s) (fun c => hfiles c _ (by simp [stepFiles])) cfg.mchrs (fun c hc => (wf.m_iff c).mp hc)
   have hck : ChecksOK ((mergeSteps cfg).flatMap (stepActs cfg true fs) ++ sqMerge cfg ++ evs S) fs := by
     rw [checks_append, checks_append]
     refine ⟨⟨steps_checks wf true fs _ (mergeSteps_nodup cfg) ?_, sqMerge_checks wf ?_⟩, checks_evs _ _⟩
@@ -389,7 +466,7 @@ theorem merge_stage {cfg : Cfg} (wf : WF cfg) {fs : FS} (h : J cfg fs)
       obtain ⟨st, _, he⟩ := he
       exact step_mergeEv wf true fs st e he
     · exact sqMerge_mergeEv wf e he
-    · subst hS; simp only [List.mem_map] at he; obtain ⟨s, _, rfl⟩ := he; exact Or.inr rfl
+    · subst hS; simp only [List.mem_map] at he; obtain ⟨s, _, rfl⟩ := he; exact Or.inr (Tfin_finalOf cfg s)
   have hJ : AllP (J cfg) fs ((eventsOf ((mergeSteps cfg).flatMap (stepActs cfg true fs)) ++ eventsOf (sqMerge cfg)) ++ S) := by
     apply allJ_body h
     · intro e he hp
@@ -410,7 +487,7 @@ theorem merge_stage {cfg : Cfg} (wf : WF cfg) {fs : FS} (h : J cfg fs)
   · intro p hp
     rw [hfs, applyAll_append]
     rcases finalPaths_cases cfg p hp with ⟨s, hs, rfl⟩ | ⟨⟨st, hst, hpst⟩, hnot⟩
-    · subst hS; simp only [FS.good]; rw [applyAll_commit_mem (f := Path.final) hs]; rfl
+    · subst hS; simp only [FS.good]; rw [applyAll_commit_mem (f := finalOf cfg) hs]; rfl
     · simp only [FS.good]
       rw [applyAll_untouched, applyAll_append, applyAll_untouched]
       · exact steps_finals cfg true fs _ (mergeSteps_nodup cfg) htok fs st hst p hpst
